@@ -14,7 +14,7 @@ def sh(cmd, timeout=1500):
 def reset():
     if not os.path.isdir(WT):
         sh(f'git -C /repo worktree add -q --detach {WT} HEAD')
-    sh(f'git -C {WT} checkout -q --detach $(git -C /repo rev-parse HEAD); git -C {WT} checkout -- . ; git -C {WT} clean -fdq')
+    sh(f'git -C {WT} reset -q --hard; git -C {WT} checkout -q --detach $(git -C /repo rev-parse HEAD); git -C {WT} reset -q --hard; git -C {WT} clean -fdq')
 def overlay_for(pkg, demo_name):
     if not pkg.startswith('pkg/core') or pkg != 'pkg/core':
         return ''
